@@ -11,7 +11,7 @@
     Nothing else is assumed about [iso]: in particular the theorems cover the transitivity shortcut of the code
     (an item is compared only with the FIRST member of each class / with one stored template per class). *)
 From Coq Require Import List NArith ZArith Bool Arith Permutation.
-From SK Require Import lib.C13_Partition model.C13_Model proof.C13_Proof proof.C13_More.
+From SK Require Import lib.LGraph lib.C13_Partition model.C13_Model proof.C13_Proof proof.C13_More proof.C13_Iso.
 Import ListNotations.
 
 (** 1. GraphCluster.fit / iterative_cluster: every item gets exactly one class (the list of classes has the length
@@ -160,3 +160,82 @@ Theorem C13_noninvariant_attribute_splits :
     gc_fit iso AStr data = [Some 0; Some 1].
 Proof. exact noninvariant_attribute_splits. Qed.
 Print Assumptions C13_noninvariant_attribute_splits.
+
+(** ** 6. the premises about [iso] are THEOREMS for the isomorphism test the model evaluates.
+    [item_iso labelled defs] = equal node counts + non-empty result of the verified enumerator Mono.monos (induced)
+    with the element/charge node matcher and the order edge matcher ([labelled = false]: topology only).
+    On well-formed items (distinct node ids, every node carries the configured attributes) it decides exactly the
+    existence of a label- and bond-preserving bijection, and it is reflexive, symmetric and transitive.
+    What stays trusted is only that networkx VF2 returns the same verdicts (compared on every run). *)
+Theorem C13_isomorphic_meaning :
+  forall (labelled : bool) (defs : list N) (g1 g2 : graph),
+  isomorphic labelled defs g1 g2 <->
+  length (gnodes g1) = length (gnodes g2) /\
+  exists f : N -> N,
+    NoDup (map f (node_ids g2)) /\ incl (map f (node_ids g2)) (node_ids g1) /\
+    (forall u, In u (node_ids g2) -> node_match labelled defs (label g1 (f u)) (label g2 u) = true) /\
+    (forall u v, In u (node_ids g2) -> In v (node_ids g2) -> u <> v ->
+       match LGraph.adj g2 u v, LGraph.adj g1 (f u) (f v) with
+       | Some b, Some b' => edge_match labelled b' b = true
+       | None, None => True
+       | _, _ => False
+       end).
+Proof. exact isomorphic_meaning. Qed.
+Print Assumptions C13_isomorphic_meaning.
+
+Theorem C13_iso_decides_isomorphism :
+  forall (labelled : bool) (defs : list N) (g1 g2 : graph), NoDup (node_ids g2) ->
+  (graph_iso labelled defs g1 g2 = true <-> isomorphic labelled defs g1 g2).
+Proof. exact graph_iso_spec. Qed.
+Print Assumptions C13_iso_decides_isomorphism.
+
+Theorem C13_iso_is_equivalence :
+  forall (labelled : bool) (defs : list N),
+  let D := fun x : item =>
+             NoDup (node_ids (it_graph x)) /\
+             forall u a, In (u, a) (gnodes (it_graph x)) -> length defs <= length a in
+  (forall x, D x -> item_iso labelled defs x x = true) /\
+  (forall x y, D x -> D y -> item_iso labelled defs x y = true -> item_iso labelled defs y x = true) /\
+  (forall x y z, D x -> D y -> D z ->
+     item_iso labelled defs x y = true -> item_iso labelled defs y z = true -> item_iso labelled defs x z = true).
+Proof. exact (fun labelled defs => conj (item_iso_refl labelled defs) (conj (item_iso_sym labelled defs) (item_iso_trans labelled defs))). Qed.
+Print Assumptions C13_iso_is_equivalence.
+
+(** hence, with NO assumption about the isomorphism test: GraphCluster.fit on well-formed reaction-centre graphs
+    gives every item exactly one class and two items share a class IFF their graphs are isomorphic on element,
+    charge and bond order -- provided only that the pre-grouping attribute (if any) is isomorphism-invariant. *)
+Theorem C13_partition_graphs :
+  forall (labelled : bool) (defs : list N) (mode : attr_mode) (data : list item),
+  let D := fun x : item =>
+             NoDup (node_ids (it_graph x)) /\
+             forall u a, In (u, a) (gnodes (it_graph x)) -> length defs <= length a in
+  (forall x y, D x -> D y -> isomorphic labelled defs (it_graph x) (it_graph y) -> gc_key mode x = gc_key mode y) ->
+  Forall D data ->
+  length (gc_fit (item_iso labelled defs) mode data) = length data /\
+  forall i j x y, nth_error data i = Some x -> nth_error data j = Some y ->
+  exists ci cj,
+    nth_error (gc_fit (item_iso labelled defs) mode data) i = Some (Some ci) /\
+    nth_error (gc_fit (item_iso labelled defs) mode data) j = Some (Some cj) /\
+    ci < length (fst (gc_iterative (item_iso labelled defs) mode data)) /\
+    (ci = cj <-> isomorphic labelled defs (it_graph x) (it_graph y)).
+Proof. exact (fun labelled defs mode data => partition_graphs labelled defs mode data). Qed.
+Print Assumptions C13_partition_graphs.
+
+(** ... and batched classification of the items in ANY arrival order, with any batch size, puts two items into the
+    same class IFF their graphs are isomorphic *)
+Theorem C13_batch_any_order_graphs :
+  forall (labelled : bool) (defs : list N) (mode : attr_mode) (data data' : list item) (bs : option nat) (picks : list nat),
+  let D := fun x : item =>
+             NoDup (node_ids (it_graph x)) /\
+             forall u a, In (u, a) (gnodes (it_graph x)) -> length defs <= length a in
+  (forall x y, D x -> D y -> isomorphic labelled defs (it_graph x) (it_graph y) -> gc_key mode x = gc_key mode y) ->
+  Permutation data data' -> Forall D data ->
+  match bs with None => True | Some b => 1 <= b end ->
+  forall i j i' j' x y,
+    nth_error data i = Some x -> nth_error data j = Some y ->
+    nth_error data' i' = Some x -> nth_error data' j' = Some y ->
+    (nth_error (fst (fit (item_iso labelled defs) mode data' [] bs picks)) i' =
+     nth_error (fst (fit (item_iso labelled defs) mode data' [] bs picks)) j' <->
+     isomorphic labelled defs (it_graph x) (it_graph y)).
+Proof. exact (fun labelled defs mode data data' bs picks => batch_any_order_graphs labelled defs mode data data' bs picks). Qed.
+Print Assumptions C13_batch_any_order_graphs.
